@@ -69,6 +69,8 @@ func c18Eval(c *Ctx, cs *c18Case, o c18Out) {
 	c.Res.Hit("kind/" + cs.Kind)
 	if cs.Look > 0 {
 		c.Res.Hit(fmt.Sprintf("lookalike-%d%%/%s", cs.Look, cs.Kind))
+	} else if cs.Look < 0 {
+		c.Res.Hit(fmt.Sprintf("whitespace-%d%%/%s", -cs.Look, cs.Kind))
 	}
 	if cs.Known {
 		c.Res.Hit("stream/known-findings/" + cs.Kind)
@@ -296,7 +298,7 @@ func c18EvalHTML(c *Ctx, cs *c18Case) {
 }
 
 func runC18(c *Ctx) {
-	c.Res.Rule = "half of the cases additionally draw 15% / 60% of ALL their strings from a small pool of short format look-alikes (callgrind `(9)` `+3` `*` `fn=x` `calls=1 2`, DOT `N1` `]` `\\l`, HTML `</script>` `{{.}}`), repeated across nodes; profiles (and graphs handed to graph.ComposeDot) with DOT/callgrind/HTML metacharacters (\" \\ newline < > & { } [ ] | ; ( ) non-ASCII, non-UTF-8, escape look-alikes, strings ending in a backslash) in one chosen string position or in all of them (function, system name, file, mapping file, build id, comment, label key/value, numeric label key/unit, sample type/unit; graph title, legend line, tag, numeric tag, value unit) × call_tree × granularity × nodecount; the real output of pprof -dot/-callgrind (one process each), report.Generate, graph.ComposeDot and the web UI pages is checked by the Lean DOT parser / callgrind checker (pvdrv-C18). Non-trivial = the marker embedded in the hot string reached the output (DOT, HTML) or the callgrind output has calls= entries."
+	c.Res.Rule = "every white-space-only string over {space, tab, LF, CR, CRLF, VT, FF, U+00A0, U+2028} of length 1..3 is used as function name, file name and mapping file of a callgrind report in every run, a sixth of the cases draws 35% of its strings from that set (alone or around a normal name); about half of the cases additionally draw 15% / 60% of ALL their strings from a small pool of short format look-alikes (callgrind `(9)` `+3` `*` `fn=x` `calls=1 2`, DOT `N1` `]` `\\l`, HTML `</script>` `{{.}}`), repeated across nodes; profiles (and graphs handed to graph.ComposeDot) with DOT/callgrind/HTML metacharacters (\" \\ newline < > & { } [ ] | ; ( ) non-ASCII, non-UTF-8, escape look-alikes, strings ending in a backslash) in one chosen string position or in all of them (function, system name, file, mapping file, build id, comment, label key/value, numeric label key/unit, sample type/unit; graph title, legend line, tag, numeric tag, value unit) × call_tree × granularity × nodecount; the real output of pprof -dot/-callgrind (one process each), report.Generate, graph.ComposeDot and the web UI pages is checked by the Lean DOT parser / callgrind checker (pvdrv-C18). Non-trivial = the marker embedded in the hot string reached the output (DOT, HTML) or the callgrind output has calls= entries."
 	tmp, err := os.MkdirTemp("", "c18-")
 	if err != nil {
 		c.Res.HarnessError = err.Error()
@@ -441,6 +443,39 @@ func runC18(c *Ctx) {
 			c18CgStream(rr, cs, known)
 		}
 		c18Eval(c, cs, c18Exec(c, tmp, 0, cs))
+	}
+	// --- stream 4b: every white-space-only string (cross product of c18WhiteAtoms, lengths 1..3) as
+	// function name, file name and mapping file of a callgrind report: names that a trimming /
+	// line-break step may or may not collapse to the empty name
+	c18LookPct, c18WhitePct = 0, 0
+	for _, field := range []string{"func", "file", "mapfile"} {
+		per := 3
+		if field == "mapfile" {
+			per = 1
+		}
+		for k := 0; k < len(c18WhiteAll); k += per {
+			n++
+			cs := &c18Case{Kind: "callgrind-report", Hot: field, Marker: marker(n), Vals: "pos", Look: -100}
+			rr := r.Fork()
+			c18ValMode = "pos"
+			cs.Prof = c18GenProf(rr, "", cs.Marker, false, true)
+			for j := 0; j < per && k+j < len(c18WhiteAll); j++ {
+				w := c18s(c18WhiteAll[k+j])
+				switch field {
+				case "func":
+					cs.Prof.Funcs[j].Name = w
+				case "file":
+					cs.Prof.Funcs[j].File = w
+				default:
+					cs.Prof.Maps[0].File = w
+				}
+			}
+			cs.Opts = c18Opts{Gran: []string{"functions", "lines", "files", "filefunctions"}[rr.Intn(4)], KeepAll: true}
+			if field == "file" {
+				cs.Opts.Gran = []string{"lines", "files", "filefunctions"}[rr.Intn(3)]
+			}
+			c18Eval(c, cs, c18Exec(c, tmp, 0, cs))
+		}
 	}
 	// --- stream 5: web UI pages ---
 	// (the disasm handler prints "stat <mapping file>: no such file" to the process's
